@@ -13,12 +13,15 @@ ASSUME ~ModelBounded({"D11_unbounded_store"}) /\ ~ModelBounded({"D11_reparse", "
 Shards == 16
 VARIABLES shard, phase
 vars == <<shard, phase>>
+Worst(r) == LET bad == {i \in 1..Len(r.events) : ~RetainedOk(r.conns, r.events[i].retained) \/ ~WorkOk(r.events[i].len, r.events[i].allocated)} IN
+            IF bad = {} THEN 0 ELSE CHOOSE x \in bad : \A y \in bad : x <= y
 RowOk(r) ==
-  LET bad == {i \in 1..Len(r.events) : ~RetainedOk(r.conns, r.events[i].retained) \/ ~WorkOk(r.events[i].len, r.events[i].allocated)} IN
-  \/ bad = {}
-  \/ LET i == CHOOSE x \in bad : \A y \in bad : x <= y IN
-     PrintT("BAD " \o ToJson([id |-> r.id, event |-> r.events[i], retained_bound |-> Base + r.conns * L, work_bound |-> A + B * r.events[i].len,
-                               retained_ok |-> RetainedOk(r.conns, r.events[i].retained), work_ok |-> WorkOk(r.events[i].len, r.events[i].allocated)]))
+  /\ (r.over /\ ~PlateauOk(r.events, r.cap)) =>
+        PrintT("BAD " \o ToJson([id |-> r.id, event |-> r.events[Len(r.events)], retained_bound |-> -1, work_bound |-> -1, retained_ok |-> FALSE, work_ok |-> TRUE]))
+  /\ Worst(r) # 0 =>
+        LET i == Worst(r) IN
+        PrintT("BAD " \o ToJson([id |-> r.id, event |-> r.events[i], retained_bound |-> Base + r.conns * L, work_bound |-> A + B * r.events[i].len,
+                                  retained_ok |-> RetainedOk(r.conns, r.events[i].retained), work_ok |-> WorkOk(r.events[i].len, r.events[i].allocated)]))
 Init == shard \in 0..(Shards - 1) /\ phase = 0
 Next == phase = 0 /\ phase' = 1 /\ UNCHANGED shard
 Inv == phase = 1 => \A i \in 1..Len(Rows) : (i % Shards = shard) => RowOk(Rows[i])
